@@ -19,7 +19,7 @@ TIME = {'quick': 110, 'thorough': 1500}
 
 @st.composite
 def cases(draw, tier='quick'):
-    dom = draw(gen.domains(2, 5, 1, 4, cap=400))
+    dom = draw(gen.domains(2, 5 if tier == 'quick' else 6, 1, 4 if tier == 'quick' else 5, cap=400))
     attrs, shape = dom['attrs'], dom['shape']
     if len(attrs) >= 3 and draw(st.integers(0, 2)) == 0:
         meas = draw(inf.hub_measurement_specs(attrs, shape))
